@@ -87,7 +87,7 @@ def make(idx, fsbox):
             raise Raised("TypeError")
         return new_mdata(i, c, r, a, k)
 
-    h.update({"PathsMetadata": new_mdata_checked, "CsvPath": new_csvpath, "MetadataParser": new_mp, "ReferenceParser": refparser})
+    h.update({"PathsMetadata": new_mdata_checked, "CsvPath": new_csvpath, "MetadataParser": new_mp, "ReferenceParser": K.reference_parser_handler(idx)})
     pm = {f"PathsManager.{m}" for m in idx.cls("PathsManager").methods}
     pr = {f"PathsRegistrar.{m}" for m in idx.cls("PathsRegistrar").methods} | {"PathsRegistrar.distribute_update"}
     mp = {f"MetadataParser.{m}" for m in ("extract_metadata", "extract_csvpath_and_comment", "collect_metadata")}
